@@ -455,6 +455,54 @@ def expand_iso(ops, obs_for_ops, outs):
     return mops, mouts
 
 
+BIG = 900000           # Redis runs only (virtual clock, 1 model ms = 100 real ms): 25 h, beyond constants.DefaultDataTTL (24 h)
+
+
+def lifetime_left_cases():
+    """which lifetime does a write leave on the key?  Every write operation x lifetime argument {0 = never, SHORT, LONG} x prior
+    state of the key {absent, deadline MID, never, created with the default lifetime}; GetExpiration right after (compared as a
+    number on every backend).  As "both": memory + redis side by side with clock steps of 200 ms up to beyond MID.  As "redis":
+    FastForward 25 h twice — beyond DefaultDataTTL, so a key that was meant to live forever but got the default lifetime is gone
+    (and one that was meant to get the default lifetime but got none is still there)."""
+    out = []
+    T = {"op": "tick", "d": TICK}
+    B = {"op": "tick", "d": BIG}
+    spec = {
+        "s": ("s0", [[], [{"op": "set", "k": "s0", "v": "a", "ttl": MID}], [{"op": "set", "k": "s0", "v": "a", "ttl": 0}]],
+              lambda t: [[{"op": "set", "k": "s0", "v": "b", "ttl": t}], [{"op": "setnx", "k": "s0", "v": "b", "ttl": t}],
+                         [{"op": "cas", "k": "s0", "old": "a", "v": "b", "ttl": t}], [{"op": "cas", "k": "s0", "old": None, "v": "b", "ttl": t}],
+                         [{"op": "setexp", "k": "s0", "ttl": t}]],
+              [{"op": "get", "k": "s0"}]),
+        "l": ("l0", [[], [{"op": "setlist", "k": "l0", "v": ["a", "b"], "ttl": MID}], [{"op": "setlist", "k": "l0", "v": ["a", "b"], "ttl": 0}],
+                     [{"op": "append", "k": "l0", "v": "a"}]],
+              lambda t: [[{"op": "setlist", "k": "l0", "v": ["x", "y"], "ttl": t}], [{"op": "setlist", "k": "l0", "v": ["x"], "ttl": t}],
+                         [{"op": "setlist", "k": "l0", "v": [], "ttl": t}], [{"op": "setexp", "k": "l0", "ttl": t}]]
+                        + ([[{"op": "append", "k": "l0", "v": "z"}], [{"op": "remove", "k": "l0", "v": "a"}]] if t == 0 else []),
+              [{"op": "getlist", "k": "l0"}]),
+        "h": ("h0", [[], [{"op": "sethash", "k": "h0", "f": "f", "v": "a"}],
+                     [{"op": "sethash", "k": "h0", "f": "f", "v": "a"}, {"op": "setexp", "k": "h0", "ttl": MID}],
+                     [{"op": "sethash", "k": "h0", "f": "f", "v": "a"}, {"op": "setexp", "k": "h0", "ttl": 0}]],
+              lambda t: [[{"op": "setexp", "k": "h0", "ttl": t}]]
+                        + ([[{"op": "sethash", "k": "h0", "f": "g", "v": "z"}], [{"op": "sethash", "k": "h0", "f": "f", "v": "z"}],
+                            [{"op": "delhash", "k": "h0", "f": "nope"}]] if t == 0 else []),
+              [{"op": "getallhash", "k": "h0"}]),
+        "c": ("c0", [[], [{"op": "incrby", "k": "c0", "n": 5}], [{"op": "incrby", "k": "c0", "n": 5}, {"op": "setexp", "k": "c0", "ttl": MID}],
+                     [{"op": "incrby", "k": "c0", "n": 5}, {"op": "setexp", "k": "c0", "ttl": 0}]],
+              lambda t: [[{"op": "setexp", "k": "c0", "ttl": t}]]
+                        + ([[{"op": "incrby", "k": "c0", "n": 1}], [{"op": "incrby", "k": "c0", "n": 0}], [{"op": "incrby", "k": "c0", "n": -5}]] if t == 0 else []),
+              [{"op": "get", "k": "c0"}]),
+    }
+    for ty, (k, priors, writes, read) in spec.items():
+        obs = [{"op": "getexp", "k": k}, {"op": "exists", "k": k}] + read
+        for pr in priors:
+            for t in (0, SHORT, LONG):
+                for w in writes(t):
+                    head = pr + w + obs
+                    out.append({"mode": "both", "ops": head + [T] + obs + [T, T] + obs, "scale": 1, "tol": MARGIN, "lifetime": True})
+                    out.append({"mode": "redis", "ops": head + [B] + obs + [B] + obs, "scale": 100, "tol": 0, "lifetime": True})
+    return out
+
+
 def exhaustive_small(rng, depth):
     """all histories of the given length over a reduced one-key alphabet (thorough tier)"""
     k = "k0"
@@ -562,8 +610,8 @@ def enc_out(ob):
     return [8]
 
 
-def case_value(mode, flags, tol, ops, outs):
-    return [mode, [1 if flags[f] else 0 for f in FLAGS], tol, [enc_op(o) for o in ops], [enc_out(x) for x in outs]]
+def case_value(mode, flags, tol, ops, outs, scale=1):
+    return [mode, [1 if flags[f] else 0 for f in FLAGS], tol, [enc_op(o) for o in ops], [enc_out(x) for x in outs], scale]
 
 
 # ------------------------------------------------------------------------------------------------
@@ -663,6 +711,7 @@ def run(ctx, only_cases=None):
         cases += [dict(c, mode="both", scale=1, tol=MARGIN) for c in lifetime_sweep("redis")]
         cases += collection_boundaries()
         cases += iso_cases()
+        cases += lifetime_left_cases()
         cases += [gen_mem(rng) for _ in range(n_mem)]
         cases += [gen_focus(rng) for _ in range(n_focus)]
         if thorough:
@@ -724,10 +773,11 @@ def run(ctx, only_cases=None):
             terms.append(case_value(1, flags, c["tol"], c["ops"], o["ref"]))
             tags.append(("ref", idx))
         else:
-            terms.append(case_value(1, flags, c["tol"], c["ops"], o["ref_raw"]))
+            terms.append(case_value(1, flags, 0, c["ops"], o["ref_raw"], c["scale"]))
             tags.append(("ref", idx))
-        if c["mode"] in ("redis", "both"):   # the Redis-flavoured reference == Spec with "empty list/hash = absent" (mode 2)
-            terms.append(case_value(2, flags, 10 ** 12, c["ops"], o["rref_raw"]))
+        if c["mode"] in ("redis", "both"):   # the Redis-flavoured reference == Spec with "empty list/hash = absent" (mode 2),
+            # DefaultDataTTL expressed in the Redis run's time unit (exact: lifetimes left on keys are compared as numbers)
+            terms.append(case_value(2, flags, 0, c["ops"], o["rref_raw"], c["scale"] if c["mode"] == "redis" else 100))
             tags.append(("ref", idx))
     lin_cases = []
     for idx, (c, o) in enumerate(zip(conc, couts)):
@@ -878,6 +928,8 @@ def run(ctx, only_cases=None):
                                                                           for a, b in zip(o.get("obs", []), o.get("obs_end", [])) if a and a[0] in ("v", "copy")),
             "both_backends_side_by_side": sum(1 for c in timed if c["mode"] == "both"),
             "calls_compared_between_the_two_real_backends": sum(o.get("cross", 0) for o in outs),
+            "lifetime_left_histories": sum(1 for c in timed if c.get("lifetime")),
+            "lifetime_left_histories_fast_forwarded_beyond_default_ttl": sum(1 for c in timed if c.get("lifetime") and c["mode"] == "redis"),
             "collection_boundary_histories": sum(1 for c in timed if c.get("boundary")),
             "histories_in_which_a_collection_becomes_empty": sum(1 for c, o in zip(timed, outs) if o.get("shape_end", -1) >= 0),
             "concurrent_cases": sum(1 for c in conc if c["mode"] == "conc"),
